@@ -27,6 +27,10 @@ pub fn run(cfg: &Config) -> i32 {
 	add(&mut total, pf::fam_corpus(cfg, flags, thorough));
 	add(&mut total, pf::fam_surrogates(cfg, flags, if thorough { 6 } else { 4 }));
 	add(&mut total, pf::fam_edit_every_position(cfg, flags, cfg.budget(3_000, 100_000)));
+	if !cfg.san {
+		add(&mut total, pf::fam_unicode_sweep(cfg, flags));
+	}
+	add(&mut total, pf::fam_block_boundaries(cfg, flags));
 	add(&mut total, pf::fam_generated(cfg, flags, cfg.budget(300_000, 10_000_000), true));
 	conclude(
 		cfg,
